@@ -252,3 +252,124 @@ Proof.
   assert (Z0 : (k_dir k1 =? 0) = false) by (rewrite K2; unfold dir_of; destruct (d =? 47)%N; reflexivity).
   rewrite Z0, K1. eexists. split; [reflexivity | exact K1].
 Qed.
+
+(* ------------------------------------------------------------------------------------------ *)
+(* a search as the SECOND address:  <first>,/re/<tail>  and  <first>;/re/<tail>  where <first> is one address without a search *)
+
+Definition nosep (s : bytes) : Prop := Forall (fun c => c <> 44%N /\ c <> 59%N) s.
+Definition eats (s r : bytes) : Prop := exists p, s = p ++ r /\ nosep p.      (* r is s without a separator-free prefix *)
+
+Lemma eats_refl s : eats s s. Proof. exists []. split; [reflexivity | constructor]. Qed.
+Lemma eats_cons c s r : c <> 44%N -> c <> 59%N -> eats s r -> eats (c :: s) r.
+Proof. intros A B (p & -> & N). exists (c :: p). split; [reflexivity | constructor; [split|]; assumption]. Qed.
+Lemma eats_trans a b c : eats a b -> eats b c -> eats a c.
+Proof. intros (p & -> & P) (q & -> & Q). exists (p ++ q). split; [now rewrite app_assoc | apply Forall_app; split; assumption]. Qed.
+
+Lemma is_dig_nosep c : is_dig c = true -> c <> 44%N /\ c <> 59%N.
+Proof. intros H. split; intros ->; cbn in H; discriminate. Qed.
+Lemma digits_eats : forall s acc, eats s (snd (digits s acc)).
+Proof.
+  induction s as [|c s IH]; intros acc; cbn; [apply eats_refl|].
+  destruct (is_dig c) eqn:D; [|apply eats_refl]. destruct (is_dig_nosep c D). apply eats_cons; [assumption..|apply IH].
+Qed.
+Lemma offsets_eats : forall fuel s n, eats s (snd (offsets fuel s n)).
+Proof.
+  induction fuel as [|f IH]; intros s n; cbn; [apply eats_refl|].
+  destruct s as [|c r]; [apply eats_refl|].
+  destruct ((c =? 45) || (c =? 43))%N eqn:E; [|apply eats_refl].
+  assert (c <> 44%N /\ c <> 59%N) as [A B].
+  { apply orb_prop in E. destruct E as [E|E]; apply N.eqb_eq in E; subst; split; discriminate. }
+  apply eats_cons; [assumption..|]. eapply eats_trans; [apply digits_eats | apply IH].
+Qed.
+Lemma fin_eats (n : Z) (rest : bytes) (k : kst) x y z :
+  (let (n', rest') := offsets (S (length rest)) rest n in (n', rest', k)) = (x, y, z) -> eats rest y.
+Proof.
+  pose proof (offsets_eats (S (length rest)) rest n) as HS.
+  destruct (offsets (S (length rest)) rest n) as [n' rest']. intros E. inversion E; subst. exact HS.
+Qed.
+(* one address without a search never steps over a separator *)
+Lemma lineno_eats valid find buf k c r n rest k' :
+  c <> 47%N -> c <> 63%N ->
+  a_lineno valid find buf k (c :: r) = (n, rest, k') -> eats (c :: r) rest.
+Proof.
+  intros N1 N2. unfold a_lineno.
+  destruct (c =? 46)%N eqn:E1. { apply N.eqb_eq in E1; subst. intros E. apply fin_eats in E. apply eats_cons; [discriminate..|exact E]. }
+  destruct (c =? 36)%N eqn:E2. { apply N.eqb_eq in E2; subst. intros E. apply fin_eats in E. apply eats_cons; [discriminate..|exact E]. }
+  destruct (c =? 39)%N eqn:E3. { apply N.eqb_eq in E3; subst. intros E. inversion E; subst. apply eats_cons; [discriminate..|apply eats_refl]. }
+  apply N.eqb_neq in N1. apply N.eqb_neq in N2. rewrite N1, N2. cbn [orb].
+  destruct (is_dig c).
+  - intros E. apply fin_eats in E. eapply eats_trans; [apply (digits_eats (c :: r) 0) | exact E].
+  - intros E. apply fin_eats in E. exact E.
+Qed.
+
+(* what is left of  pre ++ sep :: rest  after a separator-free prefix was eaten still ends in  sep :: rest *)
+Lemma eats_before_sep : forall p pre sep rest r,
+  nosep pre -> (sep = 44%N \/ sep = 59%N) -> nosep p -> p ++ r = pre ++ sep :: rest ->
+  exists q, r = q ++ sep :: rest /\ nosep q.
+Proof.
+  induction p as [|x p IH]; intros pre sep rest r NP HSEP NQ E.
+  - cbn in E. subst. exists pre. split; [reflexivity | exact NP].
+  - destruct pre as [|y pre].
+    + cbn in E. inversion E; subst. inversion NQ as [|? ? [A B] _]; subst. destruct HSEP; subst; congruence.
+    + cbn in E. injection E as E1 E2. inversion NP as [|? ? _ NP']; inversion NQ as [|? ? _ NQ']; subst.
+      exact (IH pre sep rest r NP' HSEP NQ' E2).
+Qed.
+Lemma skip_to_sep_at : forall q sep rest, nosep q -> (sep = 44%N \/ sep = 59%N) -> skip_to_sep (q ++ sep :: rest) = sep :: rest.
+Proof.
+  induction q as [|c q IH]; intros sep rest N HSEP; cbn.
+  - destruct HSEP; subst; reflexivity.
+  - inversion N as [|? ? [A B] N']; subst. apply N.eqb_neq in A. apply N.eqb_neq in B. rewrite A, B. cbn. apply IH; assumption.
+Qed.
+
+Theorem region_search_second valid find buf k c pre sep d re tail bad b e k1 :
+  nosearch (c :: pre) -> nosep (c :: pre) -> (sep = 44%N \/ sep = 59%N) ->
+  (d = 47%N \/ d = 63%N) -> plain d re -> re <> [] -> nosearch tail ->
+  a_region valid find buf ((c :: pre) ++ sep :: d :: re ++ d :: tail) k = Some (bad, b, e, k1) ->
+  (* the first address was refused (row below -1: only an unset mark does that here) and the search never ran ... *)
+  (bad = true /\ same_kwd k k1) \/
+  (* ... or re is what the address leaves behind, found or not, accepted or not *)
+  (k_kwd k1 = re /\ k_dir k1 = dir_of d /\ k_rep k1 = k_rep k).
+Proof.
+  intros NS NP HSEP D P NE NT. unfold a_region.
+  set (loc := (c :: pre) ++ sep :: d :: re ++ d :: tail).
+  assert (E0 : beqb loc [37%N] = false).
+  { unfold loc. cbn. destruct (c =? 37)%N; [|reflexivity]. destruct pre; reflexivity. }
+  rewrite E0. unfold loc at 1. cbn [app].
+  assert (G : forall r, a_loop valid find buf (S (length loc)) loc true 0 0 k = Some r ->
+              (fst (fst (fst r)) = true /\ same_kwd k (snd r)) \/ same_kwd (kwdset k re (dir_of d)) (snd r)).
+  { intros r. unfold loc at 2. cbn [app a_loop].
+    destruct (a_lineno valid find buf k (c :: pre ++ sep :: d :: re ++ d :: tail)) as [[n rest] k'] eqn:L.
+    inversion NS as [|? ? [N1 N2] NS']; subst.
+    destruct (lineno_other _ _ _ _ _ _ _ _ _ N1 N2 L) as [-> _].
+    pose proof (lineno_eats _ _ _ _ _ _ _ _ _ N1 N2 L) as (p & EP & NPp).
+    destruct (n + 1 <? 0). { intros E. inversion E. left. split; [reflexivity | apply same_refl]. }
+    destruct (eats_before_sep p (c :: pre) sep (d :: re ++ d :: tail) rest NP HSEP NPp (eq_sym EP)) as (q & -> & NQ).
+    rewrite (skip_to_sep_at q sep _ NQ HSEP).
+    set (k2 := if (sep =? 59)%N then set_row k (n + 1 - 1) else k).
+    assert (K2 : same_kwd k k2) by (unfold k2; destruct (sep =? 59)%N; [apply same_set_row | apply same_refl]).
+    (* the second round: the search *)
+    assert (LEN : exists f', length loc = S f').
+    { unfold loc. cbn. eexists. reflexivity. }
+    destruct LEN as [f' LEN]. rewrite LEN. cbn [a_loop].
+    destruct (a_lineno valid find buf k2 (d :: re ++ d :: tail)) as [[n2 rest2] k3] eqn:L2.
+    destruct (lineno_search _ _ _ _ _ _ _ _ _ _ D P NE L2) as [-> HS].
+    assert (K3 : same_kwd (kwdset k re (dir_of d)) (kwdset k2 re (dir_of d))).
+    { destruct K2 as (_ & _ & R). repeat split. cbn. exact R. }
+    destruct (n2 + 1 <? 0). { intros E. inversion E. right. exact K3. }
+    pose proof (skip_to_sep_sfx rest2) as HS2.
+    destruct (skip_to_sep rest2) as [|c2 rest3]. { intros E. inversion E. right. exact K3. }
+    intros E. apply loop_nosearch in E.
+    - right. eapply same_trans; [exact K3|]. eapply same_trans; [|exact E].
+      destruct (c2 =? 59)%N; [apply same_set_row | apply same_refl].
+    - eapply nosearch_sfx; [exact NT|]. eapply sfx_trans; [exact HS|]. eapply sfx_trans; [exact HS2|]. apply sfx_cons, sfx_refl. }
+  fold loc.
+  destruct (a_loop valid find buf (S (length loc)) loc true 0 0 k) as [[[[bad' b'] e'] k']|]; [|discriminate].
+  specialize (G _ eq_refl). cbn [fst snd] in G.
+  assert (R : bad' = true /\ same_kwd k k' \/ (k_kwd k' = re /\ k_dir k' = dir_of d /\ k_rep k' = k_rep k)).
+  { destruct G as [G|(G1 & G2 & G3)]; [left; exact G | right; cbn in G1, G2, G3; tauto]. }
+  destruct bad'. { intros E. inversion E; subst. destruct R as [[_ R]|R]; [left; split; [reflexivity|exact R] | right; exact R]. }
+  assert (R' : k_kwd k' = re /\ k_dir k' = dir_of d /\ k_rep k' = k_rep k) by (destruct R as [[R _]|R]; [discriminate | exact R]).
+  destruct ((if (b' <? 0) && (e' =? 0) then 0 else b') <? 0) ; destruct (blen buf <=? (if (b' <? 0) && (e' =? 0) then 0 else b')); cbn [orb];
+    try (intros E; inversion E; subst; right; exact R').
+  destruct ((e' <? (if (b' <? 0) && (e' =? 0) then 0 else b')) || (blen buf <? e')); intros E; inversion E; subst; right; exact R'.
+Qed.
